@@ -5,26 +5,36 @@ Explored (every element, simplest first):
 (A) objects:  `Obj.allowed_spin_blocks` of every known object shape (ERI in
     every occ/virt/general block, Coulomb integral, t-amplitudes of rank
     1..3 (+cc), Kronecker deltas, every tensor of a registered intermediate)
-    and `RegisteredIntermediate.allowed_spin_blocks` of every registered
-    intermediate: a block that is not reported must be identically zero.
-(B) terms of the grammar  prefactor x 1..3 objects  (ERI, t-amplitudes,
-    deltas, symbolic / explicit orbital-energy denominators, registered
-    intermediates, unknown tensors) x every index pattern (set partitions of
-    the slots per space) x target sets (Einstein / the same set given
-    explicitly / plus one repeated index / all contracted) x EVERY spin string
-    of the target indices x {integrate_spin, transform_to_spatial_orbitals
-    with expand_eri on/off, restricted on/off}: the value table of the
-    output at (spatial tau, spins) equals the table of the input at the spin
-    orbitals (tau, spins).
-(C) `allowed_spin_blocks(expr, target)` on the same terms and on two-term
-    sums: the input table restricted to a block that is not reported is
-    zero.
+    for every index pattern, and `RegisteredIntermediate.allowed_spin_blocks`
+    of every registered intermediate: a block that is not reported must be
+    identically zero.
+(B) terms of the grammar  prefactor x 1..3 objects  (ERI, Coulomb integrals,
+    t-amplitudes, deltas, symbolic orbital-energy denominators, orbital
+    energies, tensors of registered intermediates, unknown tensors) x every
+    index pattern (set partitions of the slots per space) x target sets
+    (Einstein / the same set given explicitly / plus one repeated index / all
+    contracted) x EVERY spin string of the target indices x {integrate_spin,
+    transform_to_spatial_orbitals(unrestricted, expand_eri),
+    (restricted), (restricted, expand_eri)}: the value table of the output at
+    (spatial tau, spins) equals the table of the input at the spin orbitals
+    (tau, spins); the target indices declared by the output are the
+    requested ones.  Plus: chains of three connected objects (<= 12 slots)
+    with every explicit target set of size <= 2, two- and three-term sums,
+    explicit orbital-energy denominators.
+(C) `allowed_spin_blocks(expr, target)` on all inputs of (B): the input table
+    restricted to a block that is not reported is zero.
 
 Oracle: vmc.evalexpr on a spin-resolved orbital model (spatial orbitals x
 {alpha, beta}) with formal tensor entries; the tensors adcgen knows are zero
-outside their spin-conserving blocks (rules written here on orbital numbers);
-with expand_eri the ERI is *defined* by formal symmetric Coulomb integrals;
+outside their spin-conserving blocks (rules written here on orbital numbers,
+for registered intermediates by evaluating the registered definition); with
+expand_eri the ERI is *defined* by formal symmetric Coulomb integrals;
 restricted: every entry is [allowed block] * W(spatial labels).
+
+A mismatch is attributed: the defects of the pinned tree (section DEFECTS) are
+modelled as transformations of the input; a result that has exactly the
+predicted defective value gets the finding key `defect:<names>`, everything
+else `value:<entry point>`.
 """
 import itertools
 import re
@@ -822,8 +832,10 @@ def _term_cases(tier):
 # (allowed_spin_blocks / _has_valid_combination) has to back-track.
 CHAIN_SHAPES = {
     "quick": [("V_oovv", "t1_2", "p2_oo")],
-    "thorough": [("V_oovv", "t1_2", "p2_oo"), ("V_oovv", "t1_2", "t2_1"),
-                 ("V_oovv", "t1_2", "t1_2")],
+    "thorough": [("V_oovv", "t1_2", "p2_oo"), ("t1_2", "t1_2", "p2_oo"),
+                 ("V_oovv", "t1_2", "t2_1"), ("V_ovov", "t1_2", "t2_1"),
+                 ("V_oovv", "t1_2", "t1_2"), ("V_ovov", "t1_2", "t1_2"),
+                 ("V_oovv", "V_oovv", "t1_2")],
 }
 
 
@@ -846,6 +858,8 @@ def _chain_cases(tier):
         for d in _terms(sh, "1"):
             cnt = gen.term_indices(d)
             if max(cnt.values()) > 2 or not _connected(d):
+                continue
+            if not _ok_term(d, "quick", 3):      # <= 3 symbols per space
                 continue
             t = build_term(d)
             if t is S.Zero:
@@ -1359,7 +1373,7 @@ def _aggregate(case, results):
     return out
 
 
-CASE_TIMEOUT = 600
+CASE_TIMEOUT = 3000
 CHUNK = 8
 
 
